@@ -34,8 +34,8 @@ import (
 
 type confComp struct{ c nodeconf.Configuration }
 
-func (c *confComp) Init(a *app.App) error              { return nil }
-func (c *confComp) Name() string                       { return "config" }
+func (c *confComp) Init(a *app.App) error               { return nil }
+func (c *confComp) Name() string                        { return "config" }
 func (c *confComp) GetNodeConf() nodeconf.Configuration { return c.c }
 
 // nodeconf.ConfigUpdateGetter: the shortest period the service accepts (whole seconds)
@@ -74,14 +74,47 @@ func (c *srcComp) GetLast(ctx context.Context, cur string) (nodeconf.Configurati
 	return next, nil
 }
 
-type storeComp struct{}
+// the participant's local configuration store: survives restarts of the service (one storeComp per participant, a new
+// service object per start).  GetLast hands out a deep copy (mergeCoordinatorAddrs writes into what it gets).
+type storeComp struct {
+	mu   sync.Mutex
+	conf *nodeconf.Configuration
+}
+
+func cloneConfiguration(c nodeconf.Configuration) nodeconf.Configuration {
+	r := c
+	r.Nodes = make([]nodeconf.Node, len(c.Nodes))
+	for i, n := range c.Nodes {
+		r.Nodes[i] = nodeconf.Node{PeerId: n.PeerId}
+		if n.Addresses != nil {
+			r.Nodes[i].Addresses = make([]string, len(n.Addresses))
+			copy(r.Nodes[i].Addresses, n.Addresses)
+		}
+		if n.Types != nil {
+			r.Nodes[i].Types = make([]nodeconf.NodeType, len(n.Types))
+			copy(r.Nodes[i].Types, n.Types)
+		}
+	}
+	return r
+}
 
 func (c *storeComp) Init(a *app.App) error { return nil }
 func (c *storeComp) Name() string          { return nodeconf.CNameStore }
 func (c *storeComp) GetLast(ctx context.Context, netId string) (nodeconf.Configuration, error) {
-	return nodeconf.Configuration{}, nodeconf.ErrConfigurationNotFound
+	c.mu.Lock()
+	defer c.mu.Unlock()
+	if c.conf == nil || c.conf.NetworkId != netId {
+		return nodeconf.Configuration{}, nodeconf.ErrConfigurationNotFound
+	}
+	return cloneConfiguration(*c.conf), nil
 }
-func (c *storeComp) SaveLast(ctx context.Context, cf nodeconf.Configuration) error { return nil }
+func (c *storeComp) SaveLast(ctx context.Context, cf nodeconf.Configuration) error {
+	c.mu.Lock()
+	defer c.mu.Unlock()
+	cp := cloneConfiguration(cf)
+	c.conf = &cp
+	return nil
+}
 
 type coordComp struct{}
 
@@ -91,31 +124,59 @@ func (c *coordComp) IsNetworkNeedsUpdate(ctx context.Context) (bool, error) {
 	return false, nil
 }
 
-// newService builds a real nodeconf service for participant [self] and leads it through the history [hist]
-// (at least one configuration): hist[0] is the configuration it is started with (Init -> setLastConfiguration), every
-// further one is delivered through the periodic update path
-// (Run -> updateConfiguration -> source.GetLast -> saveAndSetLastConfiguration -> setLastConfiguration), one per tick.
-// Close() waits for the update that is in flight, so on return the whole history has been applied.
-func newService(hist []nodeconf.Configuration, self string) (svc nodeconf.Service, err error) {
-	a := new(app.App)
-	svc = nodeconf.New()
-	src := &srcComp{queue: append([]nodeconf.Configuration{}, hist[1:]...), drained: make(chan struct{})}
-	a.Register(&confComp{hist[0]}).Register(&accComp{self}).Register(src).Register(&storeComp{}).
-		Register(&coordComp{}).Register(svc)
-	if err = svc.Init(a); err != nil || len(hist) == 1 {
-		return
+// one event of a participant's life: the process is (re)started with an app configuration, or the source delivers a
+// configuration to the running service
+type lifeEv struct {
+	start bool
+	conf  nodeconf.Configuration
+}
+
+// runLife leads participant [self] through its life with the REAL service: the store holds [stored] (nil: nothing)
+// before the first start; every start builds a new app + nodeconf service around the SAME store and account
+// (Init: store.GetLast, mergeCoordinatorAddrs, setLastConfiguration); the updates that follow a start are delivered
+// through the periodic update path of that service (Run -> updateConfiguration -> source.GetLast ->
+// saveAndSetLastConfiguration -> store.SaveLast + setLastConfiguration), the first at once, then one per tick;
+// before the next start the service is closed (Close() waits for the update in flight).  Returns the last service.
+func runLife(stored *nodeconf.Configuration, evs []lifeEv, self string) (svc nodeconf.Service, err error) {
+	store := &storeComp{}
+	if stored != nil {
+		cp := cloneConfiguration(*stored)
+		store.conf = &cp
 	}
-	if err = svc.Run(context.Background()); err != nil {
-		return
+	if len(evs) == 0 || !evs[0].start {
+		return nil, fmt.Errorf("malformed life: does not begin with a start")
 	}
-	select {
-	case <-src.drained:
-	case <-time.After(time.Duration(60+5*len(hist)) * time.Second):
-		_ = svc.Close(context.Background())
-		return nil, fmt.Errorf("the service fetched only %d of %d configuration updates within the deadline (active: %q)",
-			len(hist)-1-len(src.queue), len(hist)-1, svc.Id())
+	for i := 0; i < len(evs); {
+		appConf := cloneConfiguration(evs[i].conf)
+		var ups []nodeconf.Configuration
+		for i++; i < len(evs) && !evs[i].start; i++ {
+			ups = append(ups, cloneConfiguration(evs[i].conf))
+		}
+		a := new(app.App)
+		svc = nodeconf.New()
+		src := &srcComp{queue: ups, drained: make(chan struct{})}
+		a.Register(&confComp{appConf}).Register(&accComp{self}).Register(src).Register(store).
+			Register(&coordComp{}).Register(svc)
+		if err = svc.Init(a); err != nil {
+			return
+		}
+		if len(ups) == 0 {
+			continue
+		}
+		if err = svc.Run(context.Background()); err != nil {
+			return
+		}
+		select {
+		case <-src.drained:
+		case <-time.After(time.Duration(60+5*len(ups)) * time.Second):
+			_ = svc.Close(context.Background())
+			return nil, fmt.Errorf("the service fetched only %d of %d configuration updates within the deadline (active: %q)",
+				len(ups)-len(src.queue), len(ups), svc.Id())
+		}
+		if err = svc.Close(context.Background()); err != nil {
+			return
+		}
 	}
-	err = svc.Close(context.Background())
 	return
 }
 
@@ -134,9 +195,14 @@ type confVer struct {
 	How   string     `json:"how,omitempty"` // how the NEXT configuration of the chain was derived from this one
 }
 
-// One case = the configuration under test ([Nodes], id "verif-conf") + the histories through which the participants
-// reach it.  The pool of configurations is Earlier ++ [tested]; Hists[k] lists the pool indices participant k
-// receives (first: started with it; others: updates), always ending with the tested one.  Participants: the distinct
+// One case = the configuration under test ([Nodes], id TestedId, default "verif-conf") + the LIVES through which the
+// participants reach it.  The pool of configurations is Earlier ++ [tested] (Earlier: earlier published
+// configurations, app configurations bundled with a binary, configurations found in a store).  Hists[k] is the life of
+// participant k: the first entry i = the process is started with app configuration pool[i]; a further entry i >= 0 =
+// pool[i] is delivered to the running service as an update; an entry -(i+1) = the process is RESTARTED (new service,
+// same store, same identity) with app configuration pool[i].  Stored[k] = j+1: before the first start the
+// participant's store holds pool[j] (0 / absent: nothing stored).  After its life every participant must hold the
+// tested configuration.  Participants: the distinct
 // node ids of the tested configuration in order, then ids that occur only in earlier configurations, then the client.
 // Descriptions without "hists" (older corpus files): bit k of via_update set = participant k starts from a derived
 // other configuration and receives the tested one as an update.
@@ -145,6 +211,9 @@ type confDesc struct {
 	Nodes   []nodeDesc `json:"nodes"`
 	Earlier []confVer  `json:"earlier,omitempty"`
 	Hists   [][]int    `json:"hists,omitempty"`
+	Stored  []int      `json:"stored,omitempty"`
+	Lives   []string   `json:"lives,omitempty"` // generator's name of each participant's kind of life (statistics only)
+	Tested  string     `json:"tested_id,omitempty"`
 	Client  string     `json:"client"`
 	Spaces  []string   `json:"spaces"`
 	TableOf int        `json:"table_of"` // index into participants whose partition table is recorded
@@ -331,17 +400,35 @@ func normalise(d confDesc) confDesc {
 		d.Hists = append(d.Hists, []int{fin})
 	}
 	d.Hists = d.Hists[:len(parts)]
-	for k, h := range d.Hists { // malformed replay input: out-of-range indices dropped, the tested configuration last
+	for k, h := range d.Hists { // malformed replay input: out-of-range indices dropped, a life begins with a start
 		var c []int
 		for _, i := range h {
-			if i >= 0 && i <= fin {
+			if i >= -fin-1 && i <= fin {
 				c = append(c, i)
 			}
 		}
-		if len(c) == 0 || c[len(c)-1] != fin {
+		if len(c) == 0 {
 			c = append(c, fin)
 		}
+		if c[0] < 0 {
+			c[0] = -c[0] - 1
+		}
 		d.Hists[k] = c
+	}
+	for len(d.Stored) < len(parts) {
+		d.Stored = append(d.Stored, 0)
+	}
+	d.Stored = d.Stored[:len(parts)]
+	for k, st := range d.Stored {
+		if st < 0 || st > fin+1 {
+			d.Stored[k] = 0
+		}
+	}
+	if len(d.Lives) != len(parts) {
+		d.Lives = nil
+	}
+	if d.Tested == "" {
+		d.Tested = testedId
 	}
 	return d
 }
@@ -359,6 +446,7 @@ type prepared struct {
 	pool  []nodeconf.Configuration
 	insts []inst
 	wg    sync.WaitGroup
+	mu    sync.Mutex
 }
 
 func prepare(d confDesc) *prepared {
@@ -367,27 +455,65 @@ func prepare(d confDesc) *prepared {
 	for _, e := range d.Earlier {
 		p.pool = append(p.pool, toConfiguration(e.Id, e.Nodes))
 	}
-	p.pool = append(p.pool, toConfiguration(testedId, d.Nodes))
+	p.pool = append(p.pool, toConfiguration(d.Tested, d.Nodes))
 	parts := participants(d)
 	p.insts = make([]inst, len(parts))
 	for k, self := range parts {
 		p.insts[k].self = self
-		hist := make([]nodeconf.Configuration, len(d.Hists[k]))
+		evs := make([]lifeEv, len(d.Hists[k]))
 		for i, ix := range d.Hists[k] {
-			hist[i] = p.pool[ix]
+			switch {
+			case i == 0:
+				evs[i] = lifeEv{true, p.pool[ix]}
+			case ix < 0:
+				evs[i] = lifeEv{true, p.pool[-ix-1]}
+			default:
+				evs[i] = lifeEv{false, p.pool[ix]}
+			}
+		}
+		var stored *nodeconf.Configuration
+		if d.Stored[k] > 0 {
+			stored = &p.pool[d.Stored[k]-1]
 		}
 		p.wg.Add(1)
-		go func(in *inst, hist []nodeconf.Configuration) {
+		go func(in *inst, stored *nodeconf.Configuration, evs []lifeEv) {
 			defer p.wg.Done()
-			defer func() {
-				if rec := recover(); rec != nil {
-					in.err = fmt.Errorf("panic: %v", rec)
-				}
+			svc, err := nodeconf.Service(nil), error(nil)
+			func() {
+				defer func() {
+					if rec := recover(); rec != nil {
+						err = fmt.Errorf("panic: %v", rec)
+					}
+				}()
+				svc, err = runLife(stored, evs, in.self)
 			}()
-			in.svc, in.err = newService(hist, in.self)
-		}(&p.insts[k], hist)
+			p.mu.Lock()
+			in.svc, in.err = svc, err
+			p.mu.Unlock()
+		}(&p.insts[k], stored, evs)
 	}
 	return p
+}
+
+// wait for the participants of a case; a life that does not end within the deadline (a start or an update that never
+// returns) is reported for that participant instead of blocking the harness
+func (p *prepared) wait(deadline time.Duration) {
+	done := make(chan struct{})
+	go func() { p.wg.Wait(); close(done) }()
+	select {
+	case <-done:
+	case <-time.After(deadline):
+	}
+	p.mu.Lock()
+	defer p.mu.Unlock()
+	cp := make([]inst, len(p.insts))
+	copy(cp, p.insts)
+	for k := range cp {
+		if cp[k].svc == nil && cp[k].err == nil {
+			cp[k].err = fmt.Errorf("the participant's life (starts/updates) did not finish within %v", deadline)
+		}
+	}
+	p.insts = cp
 }
 
 // doConfs runs the cases in batches whose services are built concurrently
@@ -403,7 +529,7 @@ func (r *runner) doConfs(ds []confDesc) {
 			ps[i] = prepare(ds[i])
 		}
 		for i := 0; i < n; i++ {
-			ps[i].wg.Wait()
+			ps[i].wait(300 * time.Second)
 			r.emitConf(ps[i])
 			ps[i] = nil
 		}
@@ -447,8 +573,8 @@ func (r *runner) emitConf(p *prepared) {
 	insts := p.insts
 	caseIdx := w.Count()
 	for k, in := range insts {
-		if in.err == nil && in.svc.Id() != testedId {
-			in.err = fmt.Errorf("after its history %v the participant's active configuration is %q, not the last one delivered", d.Hists[k], in.svc.Id())
+		if in.err == nil && in.svc.Id() != d.Tested {
+			in.err = fmt.Errorf("after its life %v (stored before: %d) the participant's active configuration is %q, not the tested one (%q)", d.Hists[k], d.Stored[k], in.svc.Id(), d.Tested)
 		}
 		if in.err != nil {
 			w.Violation(caseIdx, "C18-init-failed", fmt.Sprintf("nodeconf service of participant %q: Init/Run failed, panicked or did not apply its configuration history: %v", in.self, in.err), d)
@@ -458,6 +584,27 @@ func (r *runner) emitConf(p *prepared) {
 			return
 		}
 		h := d.Hists[k]
+		if d.Lives != nil {
+			w.Stat("life_" + d.Lives[k])
+		}
+		nRestart := 0
+		for i, x := range h {
+			if i > 0 && x < 0 {
+				nRestart++
+			}
+		}
+		if d.Stored[k] > 0 {
+			w.Stat("participant_first_start_finds_stored_configuration")
+		}
+		if nRestart > 0 {
+			w.Stat("participant_restarted_during_life")
+		}
+		if d.Stored[k] > 0 || nRestart > 0 {
+			if treeSet(d.Nodes)[in.self] {
+				w.Stat("sync_node_participant_started_with_populated_store")
+			}
+			continue
+		}
 		if len(h) == 1 {
 			w.Stat("participant_fresh_on_tested_configuration")
 		} else {
@@ -553,11 +700,11 @@ func (r *runner) emitConf(p *prepared) {
 		return vlib.List(nodes)
 	}
 	// the pool: configuration ids are numbered 1.. by first occurrence of the id string
-	confNum := map[string]uint64{}
+	confNum := map[string]uint64{"-1": 0} // Run/C18_run.v: MERGED_ID
 	var confs []string
 	for i, c := range p.pool {
 		if _, ok := confNum[c.Id]; !ok {
-			confNum[c.Id] = uint64(len(confNum) + 1)
+			confNum[c.Id] = uint64(len(confNum))
 		}
 		ns := d.Nodes
 		if i < fin {
@@ -565,13 +712,33 @@ func (r *runner) emitConf(p *prepared) {
 		}
 		confs = append(confs, fmt.Sprintf("(%d, %s)", confNum[c.Id], nodesTerm(ns)))
 	}
-	var hists []string
+	var hists, actives []string
 	for k, in := range insts {
 		hv := make([]uint64, len(d.Hists[k]))
 		for i, ix := range d.Hists[k] {
-			hv[i] = uint64(ix)
+			switch {
+			case i == 0:
+				hv[i] = uint64(2*ix + 1)
+			case ix < 0:
+				hv[i] = uint64(2*(-ix-1) + 1)
+			default:
+				hv[i] = uint64(2 * ix)
+			}
 		}
-		hists = append(hists, vlib.Pair(vlib.N(rank[in.self]), vlib.NList(hv)))
+		hists = append(hists, fmt.Sprintf("(%d, %d, %s)", rank[in.self], d.Stored[k], vlib.NList(hv)))
+		// what the service says it holds
+		var tids []string
+		for _, n := range in.svc.Configuration().Nodes {
+			if n.HasType(nodeconf.NodeTypeTree) {
+				if _, ok := rank[n.PeerId]; !ok {
+					w.Violation(caseIdx, "C18-unknown-id", fmt.Sprintf("participant %q: Configuration() lists a sync node that is in none of the configurations it was given: %s", in.self, n.PeerId), d)
+					w.Add("(CChash [] 0 [] [] [])%uint63", d, "", false)
+					return
+				}
+				tids = append(tids, n.PeerId)
+			}
+		}
+		actives = append(actives, vlib.Pair(vlib.N(confNum[in.svc.Id()]), idList(tids, rank)))
 	}
 
 	// observed partition tables: recorded from one participant, all others must be identical to it
@@ -653,7 +820,7 @@ func (r *runner) emitConf(p *prepared) {
 		}
 	}
 	d.Obs = fmt.Sprintf("%d participants (histories of %d configurations) x %d space ids, %d 'responsible' answers, partition 0 = %v", len(insts), len(p.pool), len(d.Spaces), respCount, tbl[0])
-	term := vlib.App("CConf", hashList(ph), vlib.List(rows), vlib.List(keys), vlib.List(confs), fmt.Sprint(fin), vlib.List(hists), vlib.NList(rowsT), vlib.List(spaces), vlib.NList(obs)) + "%uint63"
+	term := vlib.App("CConf", hashList(ph), vlib.List(rows), vlib.List(keys), vlib.List(confs), fmt.Sprint(fin), vlib.List(hists), vlib.List(actives), vlib.NList(rowsT), vlib.List(spaces), vlib.NList(obs)) + "%uint63"
 	b, _ := json.Marshal(d)
 	nt := nTree >= 2 && len(insts) >= 2 && len(d.Spaces) >= 2
 	w.Add(term, d, string(b), nt)
@@ -999,12 +1166,180 @@ func mutateConf(r *vlib.Rand, ns []nodeDesc, newId func() string, preferSwap boo
 	return ns, how
 }
 
-// withHistories turns a single-configuration case into a case with configuration histories: a chain of 1..3 earlier
-// configurations (derived backwards from the tested one, step by step) and, per participant, a history of 1..4
-// deliveries over that chain which ends with the tested configuration: the whole chain, sub-sequences (jumps),
-// identical re-deliveries, leaving the tested configuration and coming back; at least one participant is freshly
-// started on the tested configuration.
-func withHistories(r *vlib.Rand, d confDesc) confDesc {
+func hasType(ts []string, t string) bool {
+	for _, x := range ts {
+		if x == t {
+			return true
+		}
+	}
+	return false
+}
+
+// the coordinator entries mergeCoordinatorAddrs sees in a node list: per peer id the LAST node typed "coordinator"
+func coordEntries(ns []nodeDesc) map[string]int {
+	m := map[string]int{}
+	for i, n := range ns {
+		if hasType(n.Types, "coordinator") {
+			m[n.PeerId] = i
+		}
+	}
+	return m
+}
+
+func shuffledNodes(r *vlib.Rand, ns []nodeDesc) []nodeDesc {
+	p := r.Perm(len(ns))
+	sh := make([]nodeDesc, len(ns))
+	for j, k := range p {
+		sh[j] = ns[k]
+	}
+	return sh
+}
+
+// a random sub-list of [as] in random order
+func someAddrs(r *vlib.Rand, as []string) []string {
+	var res []string
+	for _, k := range r.Perm(len(as)) {
+		if r.Chance(2, 3) {
+			res = append(res, as[k])
+		}
+	}
+	return res
+}
+
+// the part of an app configuration (the one bundled with a binary) that mergeCoordinatorAddrs ignores: nodes without
+// the coordinator type - some nodes of [like] (types kept, minus "coordinator"), some brand-new ones
+func bundleOthers(r *vlib.Rand, like []nodeDesc, newId func() string) []nodeDesc {
+	var res []nodeDesc
+	for _, n := range cloneNodes(like) {
+		if hasType(n.Types, "coordinator") || r.Chance(1, 3) {
+			continue
+		}
+		if r.Chance(1, 4) {
+			n.Addrs = nil
+		}
+		res = append(res, n)
+	}
+	for k := r.Intn(3); k > 0; k-- {
+		res = append(res, nodeDesc{PeerId: newId(), Types: []string{[]string{"tree", "file", "consensus"}[r.Intn(3)]}})
+	}
+	return res
+}
+
+// bundleFor: an app configuration whose coordinator nodes and coordinator addresses are all known to [x]
+// (mergeCoordinatorAddrs(bundle, x) adds nothing), everything else is unrelated to x
+func bundleFor(r *vlib.Rand, x []nodeDesc, newId func() string) []nodeDesc {
+	res := bundleOthers(r, x, newId)
+	for _, i := range sortedVals(coordEntries(x)) {
+		if r.Chance(2, 3) {
+			ts := []string{"coordinator"}
+			if r.Chance(1, 3) {
+				ts = append([]string{}, x[i].Types...)
+			}
+			res = append(res, nodeDesc{PeerId: x[i].PeerId, Addrs: someAddrs(r, x[i].Addrs), Types: ts})
+		}
+	}
+	return shuffledNodes(r, res)
+}
+
+func sortedVals(m map[string]int) []int {
+	var v []int
+	for _, i := range m {
+		v = append(v, i)
+	}
+	sort.Ints(v)
+	return v
+}
+
+// mergedTriple: [stored] is what a participant's store holds; returns an app configuration [bundle] that knows a
+// coordinator address and/or a coordinator node the stored configuration lacks, and [merged] = the configuration
+// mergeCoordinatorAddrs(bundle, stored) has to produce (new addresses are fresh strings appended to the stored
+// node's, new nodes are appended - the Gallina model computes the merge itself and compares)
+func mergedTriple(r *vlib.Rand, stored []nodeDesc, newId func() string) (st, bundle, merged []nodeDesc, how string) {
+	st = cloneNodes(stored)
+	if len(coordEntries(st)) == 0 && len(st) > 0 && r.Chance(2, 3) {
+		i := r.Intn(len(st))
+		st[i].Types = append(st[i].Types, "coordinator")
+	}
+	merged = cloneNodes(st)
+	ce := sortedVals(coordEntries(st))
+	addrMode := len(ce) > 0 && r.Chance(2, 3)
+	nodeMode := !addrMode || r.Chance(1, 2)
+	fresh := 0
+	freshAddr := func() string {
+		fresh++
+		return fmt.Sprintf("coord%d-%d.example.com:%d", fresh, r.Intn(1000), 4830+r.Intn(10))
+	}
+	bundle = bundleOthers(r, st, newId)
+	for _, i := range ce {
+		known := someAddrs(r, st[i].Addrs)
+		ts := []string{"coordinator"}
+		if r.Chance(1, 3) {
+			ts = append([]string{}, st[i].Types...)
+		}
+		if addrMode && (i == ce[0] || r.Chance(1, 3)) {
+			// the bundled configuration knows 1-2 addresses of this coordinator that the stored one lacks
+			as := known
+			for k, n := 0, 1+r.Intn(2); k < n; k++ {
+				f := freshAddr()
+				merged[i].Addrs = append(merged[i].Addrs, f)
+				at := len(as) // new addresses keep their relative order; known ones may sit anywhere before/after
+				if k == 0 {
+					at = r.Intn(len(as) + 1)
+				}
+				as = append(as[:at:at], append([]string{f}, as[at:]...)...)
+			}
+			bundle = append(bundle, nodeDesc{PeerId: st[i].PeerId, Addrs: as, Types: ts})
+			how += "+address"
+		} else if r.Chance(1, 2) {
+			bundle = append(bundle, nodeDesc{PeerId: st[i].PeerId, Addrs: known, Types: ts})
+		}
+	}
+	if nodeMode || how == "" {
+		for k := 1 + r.Intn(2); k > 0; k-- {
+			// a coordinator node the stored configuration does not have (as a coordinator)
+			n := nodeDesc{PeerId: newId(), Types: []string{"coordinator"}}
+			how += "+node"
+			if r.Chance(1, 6) && k > 1 {
+				var cand []int
+				for i, x := range st {
+					if _, isCoord := coordEntries(st)[x.PeerId]; !isCoord {
+						cand = append(cand, i)
+					}
+				}
+				if len(cand) > 0 {
+					n.PeerId = st[cand[r.Intn(len(cand))]].PeerId
+					how += "(known-in-another-role)"
+				}
+			}
+			if _, dup := coordEntries(bundle)[n.PeerId]; dup {
+				continue
+			}
+			if r.Chance(1, 3) {
+				n.Types = append(n.Types, "tree")
+				how += "(also-sync-node)"
+			}
+			if r.Chance(1, 3) {
+				n.Types = append(n.Types, otherTypes[r.Intn(3)])
+			}
+			for a := r.Intn(3); a > 0; a-- {
+				n.Addrs = append(n.Addrs, freshAddr())
+			}
+			bundle = append(bundle, n)
+			merged = append(merged, nodeDesc{PeerId: n.PeerId, Addrs: append([]string{}, n.Addrs...), Types: append([]string{}, n.Types...)})
+		}
+	}
+	// shuffling the bundle would permute the appended nodes only (map iteration order in the real code anyway)
+	return st, shuffledNodes(r, bundle), merged, strings.TrimPrefix(how, "+")
+}
+
+// withHistories turns a single-configuration case into a case with participant LIVES: a chain of 1..3 earlier
+// configurations (derived backwards from the tested one, step by step), app configurations bundled with a binary and a
+// configuration found in the store, and, per participant, a life of starts / updates / restarts which ends on the tested
+// configuration: fresh start, the whole chain, sub-sequences (jumps), identical re-deliveries, leaving the tested
+// configuration and coming back, and RESTARTS with a populated store (see the life names below).
+// merge = true: the tested configuration is the one a restart produces by merging coordinator addresses / nodes of the
+// app configuration into the stored one (id "-1"); d.Nodes is taken as the STORED configuration.
+func withHistories(r *vlib.Rand, d confDesc, merge bool) confDesc {
 	used := map[string]bool{d.Client: true}
 	realistic := false
 	for _, n := range d.Nodes {
@@ -1023,6 +1358,24 @@ func withHistories(r *vlib.Rand, d confDesc) confDesc {
 			}
 		}
 	}
+	var extras []confVer
+	if merge {
+		st, bundle, merged, how := mergedTriple(r, d.Nodes, newId)
+		d.Nodes = merged
+		d.Tested = "-1"
+		d.Note = strings.TrimSpace(d.Note + " restart-merge: " + how)
+		extras = []confVer{{Id: "verif-stored", Nodes: st, How: "found in the store at a restart"},
+			{Id: "verif-app", Nodes: bundle, How: "app configuration that knows a coordinator address/node the stored one lacks: " + how}}
+	} else {
+		d.Tested = testedId
+		wild := bundleOthers(r, d.Nodes, newId)
+		wild = append(wild, nodeDesc{PeerId: newId(), Addrs: []string{"coordx.example.com:4830"}, Types: []string{"coordinator"}})
+		if r.Chance(1, 3) {
+			wild[len(wild)-1].Types = append(wild[len(wild)-1].Types, "tree")
+		}
+		extras = []confVer{{Id: "verif-app", Nodes: bundleFor(r, d.Nodes, newId), How: "app configuration whose coordinators are all known to the tested one"},
+			{Id: "verif-app-x", Nodes: shuffledNodes(r, wild), How: "app configuration with a coordinator nobody else knows"}}
+	}
 	k := 1 + r.Intn(3)
 	chain := make([]confVer, k) // chain[k-1] is the direct predecessor of the tested configuration
 	cur := d.Nodes
@@ -1032,20 +1385,40 @@ func withHistories(r *vlib.Rand, d confDesc) confDesc {
 		chain[i] = confVer{Id: fmt.Sprintf("verif-h%d", i), Nodes: ns, How: how}
 		cur = ns
 	}
-	d.Earlier = chain
+	d.Earlier = append(chain, extras...)
+	x0, x1 := k, k+1 // the extras
+	fin := k + 2
 	d.Update = 0
 	parts := participants(d)
 	fresh, full := r.Intn(len(parts)), r.Intn(len(parts))
+	// the sync nodes of the tested configuration come first in [parts] order only by chance: pick two of them
+	var syncParts []int
+	ts := treeSet(d.Nodes)
+	for j, p := range parts {
+		if ts[p] && j != fresh {
+			syncParts = append(syncParts, j)
+		}
+	}
+	forced := map[int]bool{}
+	for _, q := range r.Perm(len(syncParts)) {
+		if len(forced) < 2 {
+			forced[syncParts[q]] = true
+		}
+	}
 	d.Hists = make([][]int, len(parts))
+	d.Stored = make([]int, len(parts))
+	d.Lives = make([]string, len(parts))
 	for j := range parts {
 		var h []int
+		life := ""
 		switch {
 		case j == fresh || r.Chance(1, 6):
-			h = []int{k}
+			h, life = []int{fin}, "fresh_start"
 		case j == full || r.Chance(1, 4):
-			for i := 0; i <= k; i++ {
+			for i := 0; i < k; i++ {
 				h = append(h, i)
 			}
+			h, life = append(h, fin), "whole_chain"
 		default:
 			for i := 0; i < k; i++ {
 				if r.Bool() {
@@ -1055,15 +1428,61 @@ func withHistories(r *vlib.Rand, d confDesc) confDesc {
 			if (len(h) == 0 || h[len(h)-1] != k-1) && (len(h) == 0 || r.Chance(1, 2)) {
 				h = append(h, k-1) // the direct predecessor is often the last step before the tested configuration
 			}
-			h = append(h, k)
+			h, life = append(h, fin), "updates"
 			if len(h) <= 3 && r.Chance(1, 4) { // identical re-delivery of one of them
 				i := r.Intn(len(h))
 				h = append(h[:i+1], h[i:]...)
 			} else if len(h) <= 2 && r.Chance(1, 3) { // started on (or reached) the tested one, left it, came back
-				h = append([]int{k}, h...)
+				h = append([]int{fin}, h...)
 			}
 		}
-		d.Hists[j] = h
+		st := 0
+		if merge {
+			// x0 = the stored configuration S, x1 = the app configuration A with merge(A, S) = tested (id "-1")
+			c := r.Intn(k)
+			switch op := r.Intn(12); {
+			case forced[j] || op < 3:
+				st, h, life = x0+1, []int{x1}, "restart_merges_coordinators"
+			case op < 4:
+				st, h, life = x0+1, []int{x1, -(x1 + 1)}, "restart_merges_then_restart_again"
+			case op < 6: // the store is filled by a delivered update of an earlier run of the process
+				h, life = []int{c, x0, -(x1 + 1)}, "update_stored_then_restart_merges"
+			case op < 7:
+				st, h, life = x0+1, []int{x1, c, fin}, "restart_merges_then_updates"
+			case op < 8:
+				h, life = []int{c, fin, -(x1 + 1)}, "tested_stored_then_restart"
+			case op < 9: // stored == app: nothing to merge, then the merged configuration arrives as an update
+				st, h, life = x0+1, []int{x0, fin}, "restart_nothing_to_merge_then_update"
+			}
+		} else {
+			// x0 = app configuration compatible with the tested one, x1 = one with an unknown coordinator
+			wildOr := func() int {
+				if r.Bool() {
+					return x1
+				}
+				return x0
+			}
+			switch op := r.Intn(12); {
+			case forced[j] && op < 6 || op < 2:
+				st, h, life = fin+1, []int{x0}, "restart_on_stored_tested"
+			case op < 3:
+				st, h, life = fin+1, []int{x0, -(x0 + 1)}, "restart_twice_on_stored_tested"
+			case op < 5 && len(h) >= 2: // the tested configuration was delivered (and saved), then the process restarts
+				h, life = append(h, -(x0+1)), life+"_then_restart"
+			case op < 7: // the first start finds an older configuration in the store (and maybe merges into it)
+				if len(h) < 2 {
+					h = []int{wildOr(), fin}
+				} else if r.Bool() {
+					h[0] = wildOr()
+				}
+				st, life = r.Intn(k)+1, "stored_earlier_"+life
+			case op < 9 && len(h) >= 2: // restarted in the middle of its history, any app configuration
+				at := 1 + r.Intn(len(h)-1)
+				h = append(h[:at], append([]int{-(wildOr() + 1)}, h[at:]...)...)
+				life = life + "_restart_in_between"
+			}
+		}
+		d.Hists[j], d.Stored[j], d.Lives[j] = h, st, life
 	}
 	return d
 }
@@ -1073,15 +1492,15 @@ func genSpaces(r *vlib.Rand) []string {
 	suf := func() string { return randStr(r, "0123456789abcdefghijklmnopqrstuvwxyz", 1+r.Intn(14)) }
 	s1, s2 := suf(), suf()
 	sp := []string{
-		cid(),                       // no suffix: the whole id is the key
-		cid() + "." + s1,            // usual form
-		cid() + "." + s1,            // another id with the same replication key
-		"x." + cid() + "." + s1,     // several dots, same key again
-		s1,                          // the bare key
+		cid(),                   // no suffix: the whole id is the key
+		cid() + "." + s1,        // usual form
+		cid() + "." + s1,        // another id with the same replication key
+		"x." + cid() + "." + s1, // several dots, same key again
+		s1,                      // the bare key
 		cid() + "." + s2,
-		cid() + ".",                 // empty key
-		"",                          // empty id
-		"." + s2,                    // leading dot
+		cid() + ".", // empty key
+		"",          // empty id
+		"." + s2,    // leading dot
 		cid() + ".." + s2 + "." + s1 + "." + suf(),
 	}
 	for i := r.Intn(3); i > 0; i-- {
@@ -1231,10 +1650,10 @@ func main() {
 		for i, n := range sizes {
 			rr := r.Fork(uint64(b*1000 + i))
 			d := genConf(rr, n, 1+r.Intn(4), false)
-			confs = append(confs, withHistories(rr, d))
+			confs = append(confs, withHistories(rr, d, i%3 == 1))
 			if n >= 2 && n <= 4 || (o.Tier == "thorough" && n >= 2 && n <= 12) {
 				for v := 0; v < nVariants; v++ {
-					confs = append(confs, withHistories(r, variantOf(r, d)))
+					confs = append(confs, withHistories(r, variantOf(r, d), i%2 == 0))
 				}
 			}
 		}
@@ -1248,7 +1667,7 @@ func main() {
 	for b := 0; b < o.Budget; b++ {
 		for i, n := range dupSizes {
 			rr := r.Fork(uint64(500 + b*1000 + i))
-			confs = append(confs, withHistories(rr, genConf(rr, n, r.Intn(3), true)))
+			confs = append(confs, withHistories(rr, genConf(rr, n, r.Intn(3), true), (b+i)%2 == 0))
 		}
 	}
 	run.doConfs(confs)
@@ -1261,9 +1680,12 @@ func main() {
 	for k := 0; k < nChash; k++ {
 		run.doChash(genChash(r))
 	}
-	w.Finish("real nodeconf services (every node of the tested or an earlier configuration + a client per case), each led through its own HISTORY of 1..4 "+
-		"configurations via Init and Run->updateConfiguration (chains of role swaps, replaced/added/removed sync nodes, promotions, other nodes, address-only / "+
-		"type-only changes, reorderings; sub-sequences, identical re-deliveries, leaving and returning); observed after the last one; tree-node sets of 0..12 (thorough: ..32) nodes, random type mixes, "+
+	w.Finish("real nodeconf services (every node of the tested or an earlier configuration + a client per case), each led through its own LIFE of 1..5 "+
+		"events with a persistent per-participant store: first start (store empty, or holding the tested / an earlier / a to-be-merged configuration), configuration updates via "+
+		"Run->updateConfiguration (chains of role swaps, replaced/added/removed sync nodes, promotions, other nodes, address-only / "+
+		"type-only changes, reorderings; sub-sequences, identical re-deliveries, leaving and returning), RESTARTS with app configurations whose coordinators are known to the stored "+
+		"configuration (stored one stays active) or bring a new coordinator address / coordinator node, possibly also a sync node (merged, id -1; ~1/3 of the cases are tested ON the merged "+
+		"configuration, >= 2 of their sync nodes restart straight into it); observed after the last event; tree-node sets of 0..12 (thorough: ..32) nodes, random type mixes, "+
 		"shuffled orders, variants with the same tree-node set; 10+ space ids per configuration with/without '.' suffix, shared keys, empty keys) "+
 		"and bare go-chash instances with a custom Hasher (hash ranges 2..128 force ties; P 10..240, multiply factor 1..8, rf 1..5, duplicated members); "+
 		"a configuration case is non-trivial if it has >= 2 tree nodes, >= 2 participants and >= 2 space ids; a chash case if it has >= 2 distinct members; "+
